@@ -100,6 +100,9 @@ class InputIter:
                 raise StopIteration
             i = self.i; self.i += 1
             w.pulled_item(self.c, i)
+            hook = w.pull_hooks.get((self.c, i))
+            if hook is not None:
+                hook(w, s, self.c, i)          # a slow input: something else happens while this item is being produced
             return delayed(task)(self.c, i)
         finally:
             self.inside = False
@@ -140,6 +143,7 @@ class World(sp.Obs):
         self.nested = []
         self.probes = collections.Counter()
         self.b_cfg = 1
+        self.pull_hooks = {}
         self.depth = {}              # thread name -> parallel nesting depth (main = 0)
         self.nest_level = collections.Counter()   # thread name -> nested Parallel calls in progress
         self.explicit_nest = collections.Counter()  # ... of which with an explicit backend argument
@@ -419,7 +423,9 @@ def run_parallel_case(case, consumer=None, setup=None):
             except BaseException as e:  # noqa
                 rec["outcome"] = outcome_of_exception(e)
             rec["t1"] = s.now
-            if rec.get("defer_over"):
+            if rec.get("over"):
+                pass                             # already stamped by the property's consumer
+            elif rec.get("defer_over"):
                 rec["over_seq"] = 10 ** 12       # stamped later by the property (asynchronous abandon)
             else:
                 mark_over(w, rec)
